@@ -1247,8 +1247,8 @@ def main(ctx):
                        "final value", "unreferenced commons that nothing exports and unresolved weak undefined names are outside "
                        "the statement"]
     tools.wild()
-    n = ctx.pick(70, 1500)
-    jobs = [("p", p) for p in pinned_cases()] + [("g", i) for i in range(n)] + [("P", j) for j in range(ctx.pick(8, 80))]
+    n = ctx.pick(70, 900)
+    jobs = [("p", p) for p in pinned_cases()] + [("g", i) for i in range(n)] + [("P", j) for j in range(ctx.pick(8, 40))]
     if ctx.replay is not None:
         c = str(ctx.replay.get("case"))
         jobs = [j for j in jobs if (j[0] == "p" and c == f"pinned-{j[1]['id']}") or (j[0] == "g" and c == str(j[1]))
